@@ -217,7 +217,9 @@ static Verdict check_c09 (const J &plan)
 	if ((plan.geti ("idx") & 63) == 0)
 	{	// SFE_MAX_ERROR is not public: walk until the "Maximum error number" entry
 		for (int e = 0 ; e < 400 ; e++)
-		{	const char *s = sf_error_number (e) ;
+		{	bool save = g_os->in_lib ; g_os->in_lib = true ;		// out-of-range numbers make the library printf
+			const char *s = sf_error_number (e) ;
+			g_os->in_lib = save ;
 			if (!s || !*s) { Finding f ; f.sig = make_sig_raw ("C09", "err.table", "-", "-", "none", "empty") ; f.detail = "sf_error_number (" + std::to_string (e) + ") is empty" ; v.findings.push_back (f) ; break ; }
 			if (strstr (s, "No error defined")) break ;
 		}
